@@ -104,3 +104,96 @@ Example C08_ex2 :
                         av_total := (Some 6, Some 2, Some 6, Some 2) |} tb 3
   = (Returned [Some 1%N], tb).
 Proof. vm_compute. reflexivity. Qed.
+
+(* ---- the bit-exact binary64 model (Model/FloatData2Coord.v: primitive floats, compared with the
+   real code on arbitrary float64 inputs with no tolerance by harness/c08_float.py) ---- *)
+From Coq Require PrimFloat.
+From SP Require Import Model.FloatData2Coord Proofs.FloatData2CoordProofs.
+
+(* the cell coordinate lies in [0, 2^p - 1] for ALL floats: NaN, infinities, overflowing
+   intermediate results included *)
+Theorem C08_f_data2coord_range : forall (v lo hi : PrimFloat.float) (p : nat),
+    0 <= f_data2coord v lo hi (2 ^ Z.of_nat p) <= 2 ^ Z.of_nat p - 1.
+Proof. exact f_data2coord_range. Qed.
+Print Assumptions C08_f_data2coord_range.
+
+(* on floats that are images z * 2^e of integers in the exact-scaling regime of C08_cell (operands
+   below 2^52 units, |hi - lo| a power of two) the float model computes exactly what the exact
+   rational model computes: [Fdy e f z] = "f is finite and its real value is z * 2^e" *)
+Theorem C08_f_data2coord_exact_regime : forall e p fv flo fhi v lo hi,
+    -900 <= e <= 900 -> 1 <= p <= 31 ->
+    Fdy e fv v -> Fdy e flo lo -> Fdy e fhi hi ->
+    small v = true -> small lo = true -> small hi = true ->
+    is_pow2 (Z.abs (hi - lo)) = true ->
+    f_data2coord fv flo fhi (2 ^ p) = data2coord1 v lo (hi - lo) (2 ^ p).
+Proof. exact f_data2coord_exact_regime. Qed.
+Print Assumptions C08_f_data2coord_exact_regime.
+
+(* one row, both axes, with the mid-point (x0 + x1) / 2.0 and the zero-extent widening + 1.0 done
+   in floating point: a row the exact model answers gets the same Hilbert distance from the
+   float model *)
+Theorem C08_f_hd1_exact_regime :
+  forall s p ftx0 fty0 ftx1 fty1 fx0 fy0 fx1 fy1 tx0 ty0 tx1 ty1 x0 y0 x1 y1 d,
+    0 <= s <= 900 -> (1 <= p <= 31)%nat ->
+    Fdy (- s) ftx0 tx0 -> Fdy (- s) fty0 ty0 -> Fdy (- s) ftx1 tx1 -> Fdy (- s) fty1 ty1 ->
+    Fdy (- s) fx0 x0 -> Fdy (- s) fy0 y0 -> Fdy (- s) fx1 x1 -> Fdy (- s) fy1 y1 ->
+    hd1 (2 ^ s) (tx0, ty0, tx1, ty1) p (Some x0, Some y0, Some x1, Some y1) = Some d ->
+    f_hd1 (ftx0, fty0, ftx1, fty1) p (fx0, fy0, fx1, fy1) = d.
+Proof. exact f_hd1_exact_regime. Qed.
+Print Assumptions C08_f_hd1_exact_regime.
+
+(* C08_cell about the bit-exact float model *)
+Theorem C08_f_cell :
+  forall s p ftx0 fty0 ftx1 fty1 fx0 fy0 fx1 fy1 tx0 ty0 tx1 ty1 x0 y0 x1 y1 d,
+    0 <= s <= 900 -> (1 <= p <= 31)%nat ->
+    Fdy (- s) ftx0 tx0 -> Fdy (- s) fty0 ty0 -> Fdy (- s) ftx1 tx1 -> Fdy (- s) fty1 ty1 ->
+    Fdy (- s) fx0 x0 -> Fdy (- s) fy0 y0 -> Fdy (- s) fx1 x1 -> Fdy (- s) fy1 y1 ->
+    let xr := widen (2 ^ s) (tx0, tx1) in
+    let yr := widen (2 ^ s) (ty0, ty1) in
+    fst xr < snd xr -> fst yr < snd yr ->
+    hd1 (2 ^ s) (tx0, ty0, tx1, ty1) p (Some x0, Some y0, Some x1, Some y1) = Some d ->
+    exists cx cy,
+      f_hd1 (ftx0, fty0, ftx1, fty1) p (fx0, fy0, fx1, fy1)
+      = distance_from_coordinate p [Z.to_N cx; Z.to_N cy] /\
+      cell_index_spec (fst xr) (snd xr - fst xr) p (x0 + x1) cx /\
+      cell_index_spec (fst yr) (snd yr - fst yr) p (y0 + y1) cy.
+Proof. exact f_cell_of_centre. Qed.
+Print Assumptions C08_f_cell.
+
+(* PARTIAL (extra hypotheses: finite inputs, finite non-negative factor n / (hi - lo), no overflow
+   of v - lo and of the product): a larger value never gets a smaller cell - subtraction,
+   multiplication by a non-negative constant, the clips and the truncation are all monotone *)
+Theorem C08_f_data2coord_monotone_partial : forall v v' lo hi p, 1 <= p <= 31 ->
+    let c := PrimFloat.div (Z2float (2 ^ p)) (PrimFloat.sub hi lo) in
+    PrimFloat.is_finite v = true -> PrimFloat.is_finite v' = true -> PrimFloat.is_finite lo = true ->
+    PrimFloat.is_finite c = true -> PrimFloat.leb PrimFloat.zero c = true ->
+    PrimFloat.is_finite (PrimFloat.sub v lo) = true -> PrimFloat.is_finite (PrimFloat.sub v' lo) = true ->
+    PrimFloat.is_finite (PrimFloat.mul (PrimFloat.sub v lo) c) = true ->
+    PrimFloat.is_finite (PrimFloat.mul (PrimFloat.sub v' lo) c) = true ->
+    PrimFloat.leb v v' = true ->
+    f_data2coord v lo hi (2 ^ p) <= f_data2coord v' lo hi (2 ^ p).
+Proof. exact f_data2coord_monotone_partial. Qed.
+Print Assumptions C08_f_data2coord_monotone_partial.
+
+Module C08FloatExamples.
+Import Coq.Floats.PrimFloat.
+(* non-vacuity: the float model on C08_ex1's data (unit 1/2: 2.0, 0.0 .. 8.0, NaN, 16.0 in a
+   16 x 16 extent), evaluated by the kernel; the missing row (NaN) lands in cell (0, 0) *)
+Example C08_f_ex1 :
+  f_hilbert_distance
+    [(2, 2, 2, 2); (0, 0, 8, 8); (PrimFloat.nan, PrimFloat.nan, PrimFloat.nan, PrimFloat.nan);
+     (16, 16, 16, 16)]%float (0, 0, 16, 16)%float None 2
+  = FReturned [0%N; 2%N; 0%N; 10%N].
+Proof. vm_compute. reflexivity. Qed.
+(* 0.1-multiples, extent 0.7 (not a power of two): outside the exact regime, still computed *)
+Example C08_f_ex2 :
+  f_hilbert_distance [(0x1.999999999999ap-4, 0x1.999999999999ap-3, 0x1.3333333333333p-2, 0x1.999999999999ap-2)]%float
+    (0, 0, 0x1.6666666666666p-1, 0x1.6666666666666p-1)%float None 3
+  = FReturned [11%N].
+Proof. vm_compute. reflexivity. Qed.
+(* a zero extent at 2^53: + 1.0 is absorbed and the call raises *)
+Example C08_f_ex3 :
+  f_hilbert_distance [(0x1p53, 1, 0x1p53, 1)]%float (0x1p53, 1, 0x1p53, 1)%float None 3
+  = FRaised "ZeroDivisionError".
+Proof. vm_compute. reflexivity. Qed.
+End C08FloatExamples.
